@@ -518,3 +518,54 @@ async def simple_get(rec, port, url, headers=(), vid=None, method='GET', timeout
     r = await c.response(method, timeout, vid=vid)
     c.close()
     return r
+
+
+# ---------------------------------------------------------------------------------------------
+# a tiny authoritative DNS server (UDP): names with several A records, so that Squid sees several destinations
+# (a name that appears on several lines of a hosts file keeps only its last address)
+# ---------------------------------------------------------------------------------------------
+class MiniDns(asyncio.DatagramProtocol):
+    def __init__(self, table):
+        self.table = {k.lower().rstrip('.'): v for k, v in table.items()}       # name -> [ipv4, ...]
+        self.transport = None
+        self.queries = []
+
+    def connection_made(self, transport):
+        self.transport = transport
+
+    def datagram_received(self, data, addr):
+        try:
+            if len(data) < 12:
+                return
+            qid, flags, qd = struct.unpack('>HHH', data[:6])
+            pos, labels = 12, []
+            while data[pos]:
+                n = data[pos]
+                labels.append(data[pos + 1:pos + 1 + n].decode('latin-1'))
+                pos += 1 + n
+            pos += 1
+            qtype, qclass = struct.unpack('>HH', data[pos:pos + 4])
+            question = data[12:pos + 4]
+            name = '.'.join(labels).lower()
+            self.queries.append((name, qtype))
+            addrs = self.table.get(name)
+            if addrs is None:
+                self.transport.sendto(struct.pack('>HHHHHH', qid, 0x8583, 1, 0, 0, 0) + question, addr)      # NXDOMAIN
+                return
+            ans = b''
+            if qtype == 1:
+                for a in addrs:
+                    ans += b'\xc0\x0c' + struct.pack('>HHIH', 1, 1, 60, 4) + socket.inet_aton(a)
+            n = len(addrs) if qtype == 1 else 0
+            self.transport.sendto(struct.pack('>HHHHHH', qid, 0x8580, 1, n, 0, 0) + question + ans, addr)
+        except Exception:
+            pass
+
+    async def start(self, ip):
+        loop = asyncio.get_event_loop()
+        await loop.create_datagram_endpoint(lambda: self, local_addr=(ip, 53))
+        return self
+
+    def stop(self):
+        if self.transport:
+            self.transport.close()
